@@ -1205,6 +1205,8 @@ def _get_final_crystal_lattices(model_config, prefitting_model_config,
     features_uses[feature] += added_uses
     remaining_uses -= added_uses
     remaining_scores -= importance_scores[feature]
+  if _VERIF:
+    _VERIF_TRACE.append(('features_uses', [int(u) for u in features_uses]))
   assert np.sum(features_uses) == total_feature_use
 
   # Add features to add list in round-robin order.
